@@ -22,7 +22,7 @@ PROPS = {
         "tests": ["TestC08"],
         "struct": True,
         "design_ref": "DESIGN.md §3.8",
-        "level_text": "Theorem C08_linearizable (Coq, no axioms): in a concurrent model of one slot of the sharded backends, built from the atomic sections of the source (Read = RLock lookup then atomic load of E; Write, Delete and every batch operation's action on a slot = one Lock section; evictLeast = RLock collection then delete-by-hash; Walk's visit = RLock lookup then atomic loads), EVERY schedule of ANY number of threads yields a history accepted by the canonical atomic object of the sequential slot register sspec, i.e. is linearizable with every batch operation acting on the slot at one instant inside its call (forward simulation with hindsight linearization of readers whose entry another thread removes). Corollaries C08_quiet_read (a completed Write is visible to, and a completed Delete/DeleteAll/cleanup hides the value from, every later Read), C08_only_stored (a slot only ever holds a key and value some Write stored, so Walk reports nothing else), C08_slot_view_* (sspec is the slot view of the sequential Backend.v the C07/C09 runs exercise). Tie to the code: C08_sections (the critical-section structure of the backend functions REGENERATED from /repo by goextract equals the one the model assumes) and stress histories (2..16 goroutines, frozen clock, colliding keys, LRU/LFU on/off) whose per-slot linearization, found by porcupine, is re-checked inside Coq against sspec and real-time order.",
+        "level_text": "Theorem C08_linearizable (Coq, no axioms): in a concurrent model of one slot of the sharded backends, built from the atomic sections of the source (Read = RLock lookup then atomic load of E; Write, Delete and every batch operation's action on a slot = one Lock section; evictLeast = RLock collection then delete-by-hash; Walk's visit = RLock lookup then atomic loads), EVERY schedule of ANY number of threads yields a history accepted by the canonical atomic object of the sequential slot register sspec, i.e. is linearizable with every batch operation acting on the slot at one instant inside its call (forward simulation with hindsight linearization of readers whose entry another thread removes). Corollaries C08_quiet_read (a completed Write is visible to, and a completed Delete/DeleteAll/cleanup hides the value from, every later Read), C08_only_stored (a slot only ever holds a key and value some Write stored, so Walk reports nothing else), C08_slot_view_* (sspec is the slot view of the sequential Backend.v the C07/C09 runs exercise). Tie to the code: C08_sections (the critical-section structure of the backend functions REGENERATED from /repo by goextract equals the one the model assumes) and stress histories (2..16 goroutines, frozen clock, colliding keys, LRU/LFU on/off) whose per-slot linearization, found by porcupine, is re-checked inside Coq against sspec and real-time order. C08_source_walk_visit: a visit of the sharded Walk releases the read lock around the callback, hands it a copy with atomically loaded E and C, re-locks and counts once (bodies re-translated from /repo on every run by harness/cmd/gofunc, interpreted by theories/GoIR.v).",
         "level_note": "Partial for SyncMap: its point operations, DeleteAll (two-phase, op SClearS), Len, Walk and evictLeast have the modelled step structure relative to sync.Map being a linearizable map; its ExpireAll and deleteExpired (which act on the pointer Range handed out, possibly already replaced) are covered by the stress search only (which found known finding K1 there: DESIGN 8.3a). Walk's completeness ('every entry unchanged for the whole walk exactly once') rests on Go's map-iteration / sync.Map.Range contract (assumed; the search checks it). Trusted: Coq kernel; hand-written BackendConc.v; goextract; porcupine for the search (a linearization it finds is re-checked in Coq; a rejection is reported as found).",
     },
     "C16": {
@@ -35,9 +35,10 @@ PROPS = {
         "level_note": "Trusted: the translator (syntax-directed, its completeness is validated by the race detector runs, not verified); the Go memory model as axiomatised in Conc.v; sync.Map and channel operations are taken as synchronized; registration-time API (GobRegister, HTTPTransfer.AddCache) is out of scope (DESIGN O4). Partial: a proof about the extracted table, not about the compiled program.",
     },
     "C15": {
+        "struct": True,
         "tests": ["TestC15"],
         "design_ref": "DESIGN.md §3.15",
-        "level_text": "Theorems C15_complete_precise, C15_succeeds_without_outage, C15_failure_keeps_index, C15_retry (Coq, no axioms) about a model of InvalidateByLabels that follows the algorithm (cut, delete label by label with dedup, put back on failure), for every incidence structure, label argument list (repeats included), cache set, outage set and interleaved AddLabels. Correspondence: random structures over 1-2 names x 1-3 caches (all three backends as Deleter), outages on single (cache,key) pairs or whole caches with retries, AddLabels landing between cut and deletes, recover() around each call; counts, cache contents and the index (VerifIndexSize hook) compared.",
+        "level_text": "Theorems C15_complete_precise, C15_succeeds_without_outage, C15_failure_keeps_index, C15_retry (Coq, no axioms) about a model of InvalidateByLabels that follows the algorithm (cut, delete label by label with dedup, put back on failure), for every incidence structure, label argument list (repeats included), cache set, outage set and interleaved AddLabels. Correspondence: random structures over 1-2 names x 1-3 caches (all three backends as Deleter), outages on single (cache,key) pairs or whole caches with retries, AddLabels landing between cut and deletes, recover() around each call; counts, cache contents and the index (VerifIndexSize hook) compared. Tie to the source: C15_source_add_labels, C15_source_cut_and_delete, C15_source_put_back, C15_source_invalidate_by_labels — the loop bodies of AddLabels, cutKeys, invalidateByLabels (one deleter, one key, one label, the deferred put-back under the mutex) and InvalidateByLabels are the step functions Index.v folds over (bodies re-translated from /repo on every run by harness/cmd/gofunc, interpreted by theories/GoIR.v).",
         "level_note": "Trusted: Coq kernel; hand-written Index.v (differential tie, ~220 structures per quick run); count exactness is checked by the correspondence run, the theorem states 0 <= count; concurrency of AddLabels/Invalidate is represented by deterministic interleaving points only (data-race freedom is C16).",
     },
     "C06": {
@@ -51,7 +52,7 @@ PROPS = {
         "struct": True,
         "tests": ["TestC05"],
         "design_ref": "DESIGN.md §3.5",
-        "level_text": 'Theorems C05_single_flight (with SyncRead every builder invocation for k is preceded by a read of k under the key lock, by the invoking Get or the Get that spawned the background build, that did not hit, with no build result for k stored in between), C05_no_rebuild_while_fresh (hence against a backend that answers with a hit once a build result was stored, no second builder invocation for k: a burst costs one successful build), C05_failure_gate (a Get that checks the failure cache while the failure is live returns the cached error and is never inside the builder afterwards), C05_failures_not_cached (FailedUpdateTTL=-1: the failure cache stays empty) — Coq, no axioms, every number of Gets, keys, schedules, oracle answers. Correspondence: bursts under SyncRead and failure windows at exact fake-clock offsets (0.5/0.94/1.06/2 x FailedUpdateTTL), predicates C05_single_obs / C05_fail_obs on every implementation trace. Tie to the source: C05_source_failure_cache — the re-translated bodies of recentlyFailed and doBuild consult / fill the failure cache iff FailedUpdateTTL > -1, the entry living the failure cache\'s own TimeToLive. Tie to the source: C05_source_get_follows_model — the bodies of Failover.Get and FailoverOf.Get, re-translated from /repo on every run (harness/cmd/gofunc -> Generated/Funcs.v, interpreted by theories/GoIR.v with their helpers as primitives, which are tied separately), follow the single-thread path of the model on the complete product of 7680 configuration/outcome combinations per variant: same call-outs in the same order, same returned and published (value, error), election and release inside f.lock exactly once by the creating Get, key copied before a background build (theories/TieGet.v, by computation over the finite product).',
+        "level_text": 'Theorems C05_single_flight (with SyncRead every builder invocation for k is preceded by a read of k under the key lock, by the invoking Get or the Get that spawned the background build, that did not hit, with no build result for k stored in between), C05_no_rebuild_while_fresh (hence against a backend that answers with a hit once a build result was stored, no second builder invocation for k: a burst costs one successful build), C05_failure_gate (a Get that checks the failure cache while the failure is live returns the cached error and is never inside the builder afterwards), C05_failures_not_cached (FailedUpdateTTL=-1: the failure cache stays empty) — Coq, no axioms, every number of Gets, keys, schedules, oracle answers. Correspondence: bursts under SyncRead and failure windows at exact fake-clock offsets (0.5/0.94/1.06/2 x FailedUpdateTTL), predicates C05_single_obs / C05_fail_obs on every implementation trace. Tie to the source: C05_source_failure_cache — the re-translated bodies of recentlyFailed and doBuild consult / fill the failure cache iff FailedUpdateTTL > -1, the entry living the failure cache\'s own TimeToLive. Tie to the source: C05_source_get_follows_model — the bodies of Failover.Get and FailoverOf.Get, re-translated from /repo on every run (harness/cmd/gofunc -> Generated/Funcs.v, interpreted by theories/GoIR.v with their helpers as primitives, which are tied separately), follow the single-thread path of the model on the complete product of 7680 configuration/outcome combinations per variant: same call-outs in the same order, same returned and published (value, error), election and release inside f.lock exactly once by the creating Get, key copied before a background build (theories/TieGet.v, by computation over the finite product). C05_source_failure_cache_ttl: NewFailover / NewFailoverOf default FailedUpdateTTL 0 -> 20s, UpdateTTL 0 -> 1m, and create the failure cache iff FailedUpdateTTL > -1 with TimeToLive = FailedUpdateTTL (bodies re-translated from /repo on every run by harness/cmd/gofunc, interpreted by theories/GoIR.v).',
         "level_note": "Trusted: as C01; 'while the result stays fresh' is the hypothesis [coherent] on the backend oracle (the real backends satisfy it by C07/C08); the expiry instant the failure cache stores is an oracle input validated against the C10 bound; that the builder is invoked again once the failure expired is checked by the correspondence run (the model has the step, no liveness theorem).",
     },
     "C04": {
@@ -72,7 +73,7 @@ PROPS = {
         "struct": True,
         "tests": ["TestC02"],
         "design_ref": "DESIGN.md §3.2",
-        "level_text": 'Theorems C02_provenance / C02_value_was_built_or_stored / C02_error_was_produced (Coq, no axioms): an invariant over every reachable state of the interleaving model (any number of Gets and keys, any schedule, adversarial backend / builder / clock, every configuration, both variants, every staleness test and every nil test recognising the zero token): each return event in the ghost log is justified by events BEFORE it — with a nil error the value was returned by a finished builder invocation for the same key or read from the backend under that key; an error was produced by a builder invocation for that key (possibly served from the failure cache) or by the backend for that key. Carried by invariants on threads, key-lock records (published before close), the failure cache and the log (FailoverProv.v). Correspondence: steered runs with injected backend faults, C02_obs on every implementation trace. Tie to the source: C02_source_get_follows_model — the bodies of Failover.Get and FailoverOf.Get, re-translated from /repo on every run (harness/cmd/gofunc -> Generated/Funcs.v, interpreted by theories/GoIR.v with their helpers as primitives, which are tied separately), follow the single-thread path of the model on the complete product of 7680 configuration/outcome combinations per variant: same call-outs in the same order, same returned and published (value, error), election and release inside f.lock exactly once by the creating Get, key copied before a background build (theories/TieGet.v, by computation over the finite product).',
+        "level_text": 'Theorems C02_provenance / C02_value_was_built_or_stored / C02_error_was_produced (Coq, no axioms): an invariant over every reachable state of the interleaving model (any number of Gets and keys, any schedule, adversarial backend / builder / clock, every configuration, both variants, every staleness test and every nil test recognising the zero token): each return event in the ghost log is justified by events BEFORE it — with a nil error the value was returned by a finished builder invocation for the same key or read from the backend under that key; an error was produced by a builder invocation for that key (possibly served from the failure cache) or by the backend for that key. Carried by invariants on threads, key-lock records (published before close), the failure cache and the log (FailoverProv.v). Correspondence: steered runs with injected backend faults, C02_obs on every implementation trace. Tie to the source: C02_source_get_follows_model — the bodies of Failover.Get and FailoverOf.Get, re-translated from /repo on every run (harness/cmd/gofunc -> Generated/Funcs.v, interpreted by theories/GoIR.v with their helpers as primitives, which are tied separately), follow the single-thread path of the model on the complete product of 7680 configuration/outcome combinations per variant: same call-outs in the same order, same returned and published (value, error), election and release inside f.lock exactly once by the creating Get, key copied before a background build (theories/TieGet.v, by computation over the finite product). C02_source_wait_for_value: waitForValue reads the published value and error only after the receive from the key lock\'s channel (bodies re-translated from /repo on every run by harness/cmd/gofunc, interpreted by theories/GoIR.v).',
         "level_note": "Trusted: as C01; unique token discipline of the harness (builder tokens, seeds, error numbers are distinct so 'belongs to another key' is decidable on traces). A panicking builder is outside the model (the owner then closes the key lock without publishing).",
     },
     "C01": {
@@ -83,15 +84,17 @@ PROPS = {
         "level_note": 'Trusted: Coq kernel; the hand-written model (its tie to the code is differential: ~260 steered schedules per quick run, 12x in thorough); the DRF-SC argument that step-granular interleavings cover real executions (DESIGN §2.2); synctest; the harness.',
     },
     "C14": {
+        "struct": True,
         "tests": ["TestC14"],
         "design_ref": "DESIGN.md §3.14",
-        "level_text": 'Theorems C14_import, C14_only_registered, C14_truncated_prefix, C14_hash_set_determined / perm / idem / changes (Coq, no axioms; the hash laws hold for any fingerprint function). Correspondence: HTTPTransfer over an in-process transport (ok / types-hash mismatch / failure / body cut at random offsets), and the types hash measured in fresh processes for random registration orders, compared with the XOR model over measured singleton fingerprints.',
+        "level_text": 'Theorems C14_import, C14_only_registered, C14_truncated_prefix, C14_hash_set_determined / perm / idem / changes (Coq, no axioms; the hash laws hold for any fingerprint function). Correspondence: HTTPTransfer over an in-process transport (ok / types-hash mismatch / failure / body cut at random offsets), and the types hash measured in fresh processes for random registration orders, compared with the XOR model over measured singleton fingerprints. Tie to the source: C14_source_register_iteration (GobRegister per value: registered type contributes nothing; new type fingerprinted with a hasher and a visited-set of its own, XORed into the hash), C14_source_export_gate (the Export handler dumps iff name given, cache registered, hash given and equal to the exporter\'s — for every exporter hash, zero included — else 400/404), C14_source_import_iteration (per registered cache: asked by name with the importer\'s hash, restored into that cache iff 200, the loop is never left) (bodies re-translated from /repo on every run by harness/cmd/gofunc, interpreted by theories/GoIR.v).',
         "level_note": 'Trusted: net/http plumbing is bypassed by an in-process RoundTripper; FNV and reflect-based fingerprints are measured, not modelled.',
     },
     "C13": {
+        "struct": True,
         "tests": ["TestC13"],
         "design_ref": "DESIGN.md §3.13",
-        "level_text": 'Theorems C13_roundtrip (any source content, any walk order, any non-colliding target hash: same reads, sizes, counts, Walk content, and the result is again a well-formed source, so chains follow), C13_decode_fresh, C13_reused_variable_refuted (Coq, no axioms). Correspondence: random entry sets through real gob Dump/Restore for all family pairings, chained.',
+        "level_text": 'Theorems C13_roundtrip (any source content, any walk order, any non-colliding target hash: same reads, sizes, counts, Walk content, and the result is again a well-formed source, so chains follow), C13_decode_fresh, C13_reused_variable_refuted (Coq, no axioms). Correspondence: random entry sets through real gob Dump/Restore for all family pairings, chained. Tie to the source: C13_source_restore_iteration (one iteration of the three Restore loops: a decode target declared inside the loop, its address stored, count +1; EOF ends, other errors return the count), C13_source_dump_is_walk_encode, C13_source_walk_visit (a visit hands the callback a copy of the entry with E and C loaded atomically, outside the shard lock, counted once) (bodies re-translated from /repo on every run by harness/cmd/gofunc, interpreted by theories/GoIR.v).',
         "level_note": 'Trusted: encoding/gob is modelled by two rules (zero fields omitted; decode leaves absent fields untouched); the aliasing of a reused byte slice is not modelled (the harness compares keys byte-exactly).',
     },
     "C18": {
@@ -105,7 +108,7 @@ PROPS = {
         "struct": True,
         "tests": ["TestC12"],
         "design_ref": "DESIGN.md §3.12",
-        "level_text": 'Theorems C12_rank (for any sort that returns a sorted permutation), C12_amount, C12_untouched, C12_count_target, C12_only_on_breach (Coq, no axioms). Correspondence: real cleanup path with CountSoftLimit / EvictionNeeded / never-exceeded memory limits, all strategies; rank is checked against the TRUE access history kept by the model, counts against exact rationals of the float fraction (within one entry + 2^-30). Tie to the source: C12_source_eviction_decision (the body of Trait.invokeCleanup, re-translated from /repo on every run, calls Evict iff a soft limit is exceeded or EvictionNeeded() holds, with EvictFraction (0 -> 0.1) rescaled on a count breach to 1 - CountSoftLimit*(1-frac)/count), C12_source_count_overflow, C12_source_usage_counter (PrepareRead maintains the LRU/LFU counter as the model\'s bump).',
+        "level_text": 'Theorems C12_rank (for any sort that returns a sorted permutation), C12_amount, C12_untouched, C12_count_target, C12_only_on_breach (Coq, no axioms). Correspondence: real cleanup path with CountSoftLimit / EvictionNeeded / never-exceeded memory limits, all strategies; rank is checked against the TRUE access history kept by the model, counts against exact rationals of the float fraction (within one entry + 2^-30). Tie to the source: C12_source_eviction_decision (the body of Trait.invokeCleanup, re-translated from /repo on every run, calls Evict iff a soft limit is exceeded or EvictionNeeded() holds, with EvictFraction (0 -> 0.1) rescaled on a count breach to 1 - CountSoftLimit*(1-frac)/count), C12_source_count_overflow, C12_source_usage_counter (PrepareRead maintains the LRU/LFU counter as the model\'s bump). C12_source_evict_least_sharded / _sync / C12_source_evict_metrics: evictLeast collects (hash or key, metric), sorts ascending by metric, deletes the first int(float64(len)*fraction) entries; the metric is E for evictMostExpired and C for evictLeastCounter (bodies re-translated from /repo on every run by harness/cmd/gofunc, interpreted by theories/GoIR.v).',
         "level_note": 'Trusted: as C07; HeapInUse/SysMem breaches are not produced (only never-exceeded limits); EvictMostExpired ranks never-expiring entries first (DESIGN O1).',
     },
     "C11": {
@@ -133,7 +136,7 @@ PROPS = {
         "struct": True,
         "tests": ["TestC07"],
         "design_ref": "DESIGN.md §3.7",
-        "level_text": 'Theorem C07_refines (Coq, no axioms): for every hash function, configuration and operation sequence whose keys do not collide, the hashed backend model returns exactly what the reference map with per-entry expiry returns (Walk up to order) and emits the same metric events; C07_syncmap: an injective hash (SyncMap) always qualifies; clause-by-clause corollaries on the reference map. Correspondence: random sequences on the three real backends on an exact fake clock, jitter predicted by a mirrored seeded math/rand. Tie to the source: C07_source_read_found / _missing / C07_model_read_is_prepare_read — the bodies of Trait.PrepareRead and TraitOf[V].PrepareRead, re-translated from /repo on every run (harness/cmd/gofunc -> Generated/Funcs.v, interpreter theories/GoIR.v), compute the model\'s read classification, usage counter and metric event for EVERY entry, instant, strategy and logger/tracker presence. Also tied to the re-translated source: C07_source_read_lookup (Read of the three backends: SkipRead short-circuit, one lookup under the shard read lock, key comparison, verdict handed to PrepareRead), C07_source_delete (ErrNotFound exactly for a missing key, one removal and one NotifyDeleted otherwise), C07_source_expire_all (every entry stamped with the one instant read at the start).',
+        "level_text": 'Theorem C07_refines (Coq, no axioms): for every hash function, configuration and operation sequence whose keys do not collide, the hashed backend model returns exactly what the reference map with per-entry expiry returns (Walk up to order) and emits the same metric events; C07_syncmap: an injective hash (SyncMap) always qualifies; clause-by-clause corollaries on the reference map. Correspondence: random sequences on the three real backends on an exact fake clock, jitter predicted by a mirrored seeded math/rand. Tie to the source: C07_source_read_found / _missing / C07_model_read_is_prepare_read — the bodies of Trait.PrepareRead and TraitOf[V].PrepareRead, re-translated from /repo on every run (harness/cmd/gofunc -> Generated/Funcs.v, interpreter theories/GoIR.v), compute the model\'s read classification, usage counter and metric event for EVERY entry, instant, strategy and logger/tracker presence. Also tied to the re-translated source: C07_source_read_lookup (Read of the three backends: SkipRead short-circuit, one lookup under the shard read lock, key comparison, verdict handed to PrepareRead), C07_source_delete (ErrNotFound exactly for a missing key, one removal and one NotifyDeleted otherwise), C07_source_expire_all (every entry stamped with the one instant read at the start). C07_source_delete_all_and_len, C07_source_defaults (Trait.init: TimeToLive 0 -> 5m, DeleteExpiredAfter 0 -> 24h, ExpirationJitter 0 -> 0.1 — the model\'s eff_ttl / eff_del_after) (bodies re-translated from /repo on every run by harness/cmd/gofunc, interpreted by theories/GoIR.v).',
         "level_note": 'Trusted: Coq kernel; hand-written Backend.v / Spec.v (tied by ~300 sequences per quick run); xxhash64 values as printed by the harness; map iteration order treated as arbitrary (Walk compared as a set).',
     },
     "C17": {
